@@ -16,5 +16,6 @@ INVARIANT ThAtom
 INVARIANT ThSum
 INVARIANT ThInit
 INVARIANT ThReject
+INVARIANT ThDen
 INVARIANT Emit
 CHECK_DEADLOCK FALSE
